@@ -62,6 +62,11 @@ impl Optimizer {
         iteration: usize,
         iter_limit: usize,
     ) {
+        #[cfg(feature = "verif")]
+        let rules: Vec<&'a Rewrite> = rules
+            .into_iter()
+            .filter(|r| !crate::verif::rule_disabled(r.name.as_str()))
+            .collect();
         for _ in 0..iteration {
             let runner = egg::Runner::<_, _, ()>::new(self.analysis.clone())
                 .with_expr(expr)
@@ -145,3 +150,14 @@ static STAGE3_RULES: LazyLock<Vec<Rewrite>> = LazyLock::new(|| {
     rules.append(&mut rules::order::order_rules());
     rules
 });
+
+/// The rule lists of the optimizer stages, by name, for the verification harness.
+#[cfg(feature = "verif")]
+pub fn verif_rule_sets() -> Vec<(&'static str, Vec<Rewrite>)> {
+    vec![
+        ("stage1", STAGE1_RULES.clone()),
+        ("stage2", STAGE2_RULES.clone()),
+        ("stage3", STAGE3_RULES.clone()),
+        ("range", rules::range::filter_scan_rule()),
+    ]
+}
